@@ -60,5 +60,6 @@ def run(ck, facts, tier):
     lang = facts.crate(roles.LANG)
     rule_binders(ck, facts)
     c09.rule_gensym(ck, facts, lang, R="C09.gensym")
+    c09.rule_subst_order(ck, facts, lang)
     c17.rule_scope(ck, facts, R="C17.scope")
     ck.not_decided("that consistently renaming a binder inside a macro body leaves program outputs unchanged (behavioural)")
